@@ -20,7 +20,9 @@ Control = tuple[str, str, str, str, str]
 def run_controls(run: Run, controls: Sequence[Control],
                  rules: Callable[[Run, Program], Any], tier: str,
                  base_prog: Program | None = None) -> None:
-    base_keys = {v.key() for v in run.violations}
+    from collections import Counter
+
+    base_keys = Counter(v.key() for v in run.violations)
     skipped = 0
     for name, module, old, new, expect in controls:
         prog0 = base_prog or Program()
@@ -37,13 +39,17 @@ def run_controls(run: Run, controls: Sequence[Control],
         try:
             prog = Program(overrides={module: patched})
             rules(scratch, prog)
-            new_v = [v for v in scratch.violations
-                     if v.key() not in base_keys and v.rule.startswith(expect)]
+            seen: Counter = Counter()
+            new_v = []
+            for v in scratch.violations:
+                seen[v.key()] += 1
+                if seen[v.key()] > base_keys.get(v.key(), 0) and v.rule.startswith(expect):
+                    new_v.append(v)
             fired = bool(new_v)
             if fired:
                 detail = f"{new_v[0].rule} @ {new_v[0].function}: {new_v[0].message[:120]}"
             else:
-                others = [v.rule for v in scratch.violations if v.key() not in base_keys]
+                others = [v.rule for v in scratch.violations if v.key() not in base_keys]  # noqa
                 detail = f"expected {expect}; new violations: {others}"
         except AnalysisError as exc:
             fired = True
